@@ -1379,6 +1379,10 @@ func (e *Entry) Find(name string) *Entry {
 					e.RPC.Output = e.newRPCChild("output", OutputEntry)
 				}
 				e = e.RPC.Output
+			default:
+				// An rpc or action has no children other than
+				// input and output.
+				return nil
 			}
 		default:
 			_, part = getPrefix(part)
